@@ -209,8 +209,12 @@ def judge(c):
 
 
 def spec_violated(rep):
+    """Spec oracle on the last line of a replay (the line where implementation and model part);
+    earlier lines only build the shadow store — a bad page earlier in the same case may be a
+    listed finding and is judged where it occurs."""
     sh = Shadow()
-    for op, impl in zip(rep["ops"], rep["impl"]):
+    last = len(rep["ops"]) - 1
+    for i, (op, impl) in enumerate(zip(rep["ops"], rep["impl"])):
         f = op.split(" ")
         if f[0] == "case":
             sh = Shadow()
@@ -218,7 +222,7 @@ def spec_violated(rep):
             sh.set(f[1], f[2], int(f[3]), int(f[4]), int(f[5]), int(f[6]))
         elif f[0] == "del" and len(f) == 2:
             sh.delete(f[1])
-        elif f[0] == "q" and len(f) == 8:
+        elif f[0] == "q" and len(f) == 8 and i == last:
             if impl.startswith("r "):
                 bad = page_verdict(sh, parse_q(f), [k for k in impl[2:].split(",") if k])
                 if bad:
